@@ -48,6 +48,14 @@ func runNativeFuzz(r *runner) {
 	} else if ov := os.Getenv("C07_OVERLAY"); ov != "" {
 		args = append(args, "-overlay", ov)
 	}
+	// a run against a scratch tree (VERIF_REPO_OVERRIDE): bin/check builds the harness with -modfile <work>/modfile/go.mod,
+	// whose replace directive points at that tree; the overlay's keys are paths in that tree, so the test binary
+	// must be built with the same module file (without it the overlay matches nothing and config.VerifDecodeString is undefined)
+	if repo := os.Getenv("VERIF_REPO"); repo != "" && repo != "/repo" {
+		if mf := filepath.Join(work, "modfile", "go.mod"); fileExists(mf) {
+			args = append(args, "-modfile", mf)
+		}
+	}
 	build := exec.Command(goBin, append(args, "./cmd/c07")...)
 	if b, err := build.CombinedOutput(); err != nil {
 		r.res.Note("native fuzzing skipped: test binary does not build: " + lastLines(string(b), 5))
@@ -99,6 +107,10 @@ func runNativeFuzz(r *runner) {
 		"FuzzEncSigned":  {"enc-manifest-json", func(c Case) []string { return []string{q(argb(c, "data")), q([]byte("body")), "uint8(5)"} }},
 		"FuzzDecodeMaps": {"config-decode", func(c Case) []string { return []string{q([]byte(c.Args["in"])), "uint8(0)"} }},
 		"FuzzMetadataKV": {"", nil},
+		"FuzzPrefixedBy": {"", nil},
+		"FuzzConfigStrings": {"retry-policytype", func(c Case) []string {
+			return []string{strconv.Quote(string(argb(c, "v"))), "int64(" + strconv.Itoa(atoi(c.Args["n"])) + ")"}
+		}},
 		"FuzzUppercase": {"streams-uppercase", func(c Case) []string {
 			if len(c.Args["data"]) > 4096 {
 				return nil
